@@ -72,6 +72,7 @@ fn main() {
                 out,
                 stats: Default::default(),
             };
+            wctx::set_beat_path(ctx.journal_path());
             ctx.heartbeat();
             // run on a named thread with a large stack
             let handle = std::thread::Builder::new()
